@@ -198,6 +198,26 @@ func (vc *VC) execInstr(fr *frame, b *ssa.BasicBlock, ins ssa.Instruction, st *s
 		vc.assumeInv(st, v, m.Elem())
 		vc.assumeInv(st, k, m.Key())
 		fr.vals[x] = Val{Typ: x.Type(), Tuple: []Val{{T: okc, Typ: types.Typ[types.Bool]}, vc.mkVal(k, m.Key()), vc.mkVal(v, m.Elem())}}
+		// preconditions that mention ghosts of the key sort are universally quantified: instantiate
+		// them at the current key (one ghost at a time)
+		if fr.depth == 0 && vc.contract != nil {
+			ks := vc.S.sortOf(m.Key())
+			for _, g := range vc.contract.Ghosts {
+				gv, ok := vc.ghosts[g.Name]
+				if !ok || vc.S.sortOf(gv.Typ) != ks {
+					continue
+				}
+				env := vc.specEnv(fr, st, nil)
+				env.vars[g.Name] = Val{T: k, Typ: gv.Typ}
+				env.st = &state{reach: st.reach, heap: vc.entryHeap}
+				env.noLocals = true
+				for _, r := range vc.contract.Requires {
+					if t, err := env.evalBool(r.Expr); err == nil {
+						vc.assume(st.reach, t)
+					}
+				}
+			}
+		}
 	case *ssa.Call:
 		reachBefore := st.reach
 		res := vc.execCall(fr, x.Common(), x, st)
@@ -636,7 +656,6 @@ func nameOr(v ssa.Value, d string) string {
 }
 
 var _ = strings.Contains
-
 
 // recordErr remembers the error result of a call (for `propagates` contracts).
 func (vc *VC) recordErr(fr *frame, b *ssa.BasicBlock, call *ssa.Call, res Val, reach string) {
